@@ -377,7 +377,10 @@ def bounded(tier, seed):
         f = H.make_file(P, spec)
         for d, n, _ in spec['dims']:
             for txt, sl in (('%s,0' % d, slice(0, 1)), ('%s,1,%d' % (d, n), slice(1, n)), ('%s,0,%d,2' % (d, n), slice(0, n, 2)),
-                            ('%s,%d' % (d, n - 1), slice(n - 1, n))):
+                            ('%s,%d' % (d, n - 1), slice(n - 1, n)),
+                            # whole-dimension selections, forward and REVERSED (same element count as the dimension), strided reversal
+                            ('%s,None,None,-1' % d, slice(None, None, -1)), ('%s,-1,None,-1' % d, slice(-1, None, -1)), ('%s,0,%d,1' % (d, n), slice(0, n, 1)),
+                            ('%s,None,None,-2' % d, slice(None, None, -2)), ('%s,None,None,2' % d, slice(None, None, 2))):
                 def t(f=f, txt=txt, sl=sl, d=d):
                     g = slice_dim(f, txt)
                     for vk, v in f.variables.items():
